@@ -2759,12 +2759,16 @@ class Trimesh(Geometry3D):
         `self.face_normals` and `self.vertex_normals`.
         """
         with self._cache:
-            if "face_normals" in self._cache:
-                self.face_normals = self._cache["face_normals"] * -1.0
-            if "vertex_normals" in self._cache:
-                self.vertex_normals = self._cache["vertex_normals"] * -1.0
+            face_normals = self._cache["face_normals"]
+            vertex_normals = self._cache["vertex_normals"]
             # fliplr makes array non-contiguous so cache checks slow
             self.faces = np.ascontiguousarray(np.fliplr(self.faces))
+            # reverse the faces first: the setter only accepts
+            # normals that agree with the current winding
+            if face_normals is not None:
+                self.face_normals = face_normals * -1.0
+            if vertex_normals is not None:
+                self.vertex_normals = vertex_normals * -1.0
         # save our normals
         self._cache.clear(exclude=["face_normals", "vertex_normals"])
 
